@@ -28,7 +28,7 @@ from harness import framework, tlc, c20
 # (stage, innermost frame of the stage's module) and REPS of each group are re-run alone under L2.  Only an input
 # that does not finish under L2 - or that shares its group with REPS such inputs - is reported as a timeout.  L2 is
 # far above the slowest *bounded* parse seen (65535-entry header tables: ~6 s of CPU on a loaded machine).
-L1 = {"quick": 4.0, "thorough": 4.0}
+L1 = {"quick": 2.5, "thorough": 4.0}
 L2 = {"quick": 25.0, "thorough": 60.0}
 REPS = {"quick": 1, "thorough": 2}
 FAULTS = (("NarrowExcept", "InvTotal"), ("NoSeek", "InvNoMisclaim"), ("ForeignParser", "InvOwnErrorsOnly"),
@@ -97,7 +97,7 @@ def run_chunk(job):
         rounds += 1
         bp = os.path.join(wd, "batch_%d_%d.json" % (k, rounds))
         with open(bp, "w") as f:
-            json.dump({"seed": seed, "cpu": cpu, "cases": todo, "cwd": os.path.join(wd, "empty")}, f)
+            json.dump({"cpu": cpu, "cases": todo, "cwd": os.path.join(wd, "empty")}, f)
         open(outp, "w").close()
         env = dict(os.environ)
         try:
@@ -161,6 +161,11 @@ def execute(ctx, wd, cases, nproc):
     def rerun(idx):
         out = run_chunk((wd, 5000 + idx, ctx.seed, L2[ctx.tier], [(idx, cases[idx])]))
         return idx, out[idx]
+    # a group whose key is a listed finding needs no confirmation: it is reported under that key either way
+    listed = set(k.get("key") for k in ctx.known)
+    for key in [k for k in groups if "C20:%s:timeout:%s" % k in listed]:
+        for i in groups.pop(key):
+            results[i]["info"]["confirmed"] = "listed finding: not re-run under the long limit"
     reps = [i for g in groups.values() for i in g[:REPS[ctx.tier]]]
     with ThreadPool(nproc) as tp:
         long_res = dict(tp.map(rerun, reps))
@@ -310,13 +315,16 @@ def contracts(ctx, wd, bases):
 
 
 def params(ctx):
-    """generator parameters per tier (see the comment at P in specs/Ident.tla)"""
+    """generator parameters (see the comment at P in specs/Ident.tla).  The universe is the same in both tiers and
+    does not depend on the seed; the thorough tier runs all of it, the quick tier the part selected by the seed."""
     quick = ctx.tier == "quick"
-    single = {"target": 250 if quick else 0, "bigtarget": 20 if quick else 700, "biglen": 30000, "phase": ctx.seed,
-              "alllen": 500 if quick else 2048, "nflip": 3 if quick else 12, "flipk": 12,
-              "nrand": 3 if quick else 20, "maxfaults": 1}
-    pairs = dict(single, target=7 if quick else 40, bigtarget=3 if quick else 8, alllen=0, nflip=1,
-                 flipk=4 if quick else 12, nrand=1, maxfaults=2)
+    single = {"utarget": 0, "ubigtarget": 700, "biglen": 30000, "alllen": 2048, "nflip": 12, "nrand": 20,
+              "maxfaults": 1, "psub": 1, "phase": ctx.seed,
+              "qtarget": 140 if quick else 0, "qbigtarget": 10 if quick else 0, "qalllen": 300 if quick else 2048,
+              "qflip": 1 if quick else 12, "qrand": 2 if quick else 20}
+    pairs = {"utarget": 40, "ubigtarget": 8, "biglen": 30000, "alllen": 0, "nflip": 1, "nrand": 1,
+             "maxfaults": 2, "psub": 24 if quick else 1, "phase": ctx.seed,
+             "qtarget": 0, "qbigtarget": 0, "qalllen": 0, "qflip": 1, "qrand": 1}
     return single, pairs
 
 
@@ -327,7 +335,8 @@ def campaign(ctx, collector=None, wd=None, bases=None, lap=lambda name: None):
     if bases is None:
         bases, _ = c20.load_bases()
     single, pairs = params(ctx)
-    # single faults: exhaustive over the (strided) fault space, + intact bases + random strings
+    opkey = lambda c: (c["b"], json.dumps(c["ops"], sort_keys=True))
+    # --- single faults (+ the intact bases + the random-string classes) -----------------------------------
     single["sel"] = [0] + [b["id"] for b in bases]
     cases = generate(ctx, wd, bases, "single", single)
     lap("G1:generate")
@@ -336,21 +345,29 @@ def campaign(ctx, collector=None, wd=None, bases=None, lap=lambda name: None):
     judge(ctx, wd, bases, cases, results, "single", collector)
     lap("G1:validate")
     ctx.count("inputs_single_fault", len(cases))
-    # sequences of two faults on the bases of a known format, exhaustive over a strided sub-space
+    done = dict((opkey(c), r) for c, r in zip(cases, results))
+    # --- pairs of faults on the bases of a known format -----------------------------------------------------
+    # the generator prints the atoms of the pair universe (every one, whatever the seed) and the selected pairs;
+    # the atoms run first, alone: a pair containing an atom that alone makes read_program spin adds nothing but
+    # CPU time and is not run (same rule in both tiers, so the quick tier stays a subset of the thorough one)
     pairs["sel"] = [b["id"] for b in bases if b["truth"] in c20.FORMATS]
-    fatal = set((c["b"], json.dumps(c["ops"][0], sort_keys=True)) for c, r in zip(cases, results)
-                if len(c["ops"]) == 1 and r["info"]["kind"] == "timeout")
-    cases = generate(ctx, wd, bases, "seq", pairs)
+    cases = generate(ctx, wd, bases, "pairs", pairs)
     lap("G2:generate")
-    # a pair that contains a fault which alone makes read_program spin adds nothing but CPU time: not run, counted
-    keep = [c for c in cases if not any((c["b"], json.dumps(o, sort_keys=True)) in fatal for o in c["ops"])]
-    ctx.count("pairs_not_run_containing_a_nonterminating_fault", len(cases) - len(keep))
-    cases = keep
-    results = execute(ctx, wd, cases, tlc.NCPU)
+    atoms = [c for c in cases if len(c["ops"]) == 1 and opkey(c) not in done]
+    results = execute(ctx, wd, atoms, tlc.NCPU) if atoms else []
+    judge(ctx, wd, bases, atoms, results, "atoms", collector)
+    done.update((opkey(c), r) for c, r in zip(atoms, results))
+    fatal = set((k[0], json.dumps(json.loads(k[1])[0], sort_keys=True)) for k, r in done.items()
+                if len(json.loads(k[1])) == 1 and r["info"]["kind"] in ("timeout", "killed"))
+    two = [c for c in cases if len(c["ops"]) == 2]
+    keep = [c for c in two if not any((c["b"], json.dumps(o, sort_keys=True)) in fatal for o in c["ops"])]
+    ctx.count("pairs_not_run_containing_a_nonterminating_fault", len(two) - len(keep))
+    results = execute(ctx, wd, keep, tlc.NCPU)
     lap("G2:execute")
-    judge(ctx, wd, bases, cases, results, "seq", collector)
+    judge(ctx, wd, bases, keep, results, "pairs", collector)
     lap("G2:validate")
-    ctx.count("inputs_fault_sequences", len(cases))
+    ctx.count("inputs_pair_atoms", len(atoms))
+    ctx.count("inputs_fault_pairs", len(keep))
     if own:
         tlc.cleanup(wd)
 
